@@ -527,7 +527,7 @@ M('C16-promotion-after-run', 'C16', CONN,
 M('C16-refusal-conditions-differ', 'C16', CONN,
   "        if self.networking_thread is not None and \\\n           not self.networking_thread.interrupt or \\\n           self.new_networking_thread is not None:\n            raise InvalidState('There is an existing connection.')",
   "        if self.networking_thread is not None and \\\n           not self.networking_thread.interrupt:\n            raise InvalidState('There is an existing connection.')",
-  rule='R16.1')
+  rule='R16.3')
 M('C16-rebreak-D8-init', 'C16', CONN, "        self.socket = None\n        self.file_object = None\n", "", rule='R16.4')
 M('C16-rebreak-D8-publication', 'C16', CONN,
   "        sock = socket.socket(ai_faml, ai_type, ai_prot)\n        try:\n            sock.connect(ai_addr)\n            file_object = sock.makefile(\"rb\", 0)\n        except Exception:\n            sock.close()\n            raise\n        self.socket = sock\n        self.file_object = file_object",
